@@ -252,6 +252,57 @@ def run(R, tier, seed, driver_ok):
                         R.violation(f'{name}/get_metric-handle-changed', f'{name}: a function handed out by get_metric changed its value after {hist[-1]}', case)
                         handles = []
                         break
+    # ---- histories with array preprocessors and index inputs: set_params(preprocessor=other array) between fits
+    names = zoo.ALL if tier == 'thorough' else [zoo.ALL[i] for i in rng.choice(len(zoo.ALL), 8, replace=False)]
+    for name in names:
+        T = Tracker(R, name)
+        sd = int(rng.randint(1 << 30))
+        d1 = int(rng.randint(2, 4)); d2 = d1 + int(rng.choice([0, 1, 2]))
+        params = zoo.default_params(name, rng, d1)
+        if 'random_state' in params:
+            params['random_state'] = sd
+        if name.startswith('SDML'):
+            params['balance_param'] = 1e-7
+        hist = []
+        try:
+            datasets = []
+            for dd in (d1, d2):
+                X, y = zoo.blobs(rng, dd, int(rng.randint(2, 4)), 7)
+                ia, fa = zoo.fit_args(name, X, y, rng, indices=True)
+                datasets.append((X, y, ia, fa))
+            est = zoo.CLASSES[name](preprocessor=datasets[0][0], **zoo.fix_params(name, params, datasets[0][0], datasets[0][1]))
+            order = [0, 1, 0] if rng.rand() < 0.5 else [0, 1]
+            for step, k in enumerate(order):
+                X, y, ia, fa = datasets[k]
+                if step > 0:
+                    kw = {'preprocessor': X}
+                    if name.startswith('SCML'):
+                        kw['n_basis'] = 3 * X.shape[1] + 2
+                    if name == 'RCA_Supervised':
+                        kw.update({k_: v_ for k_, v_ in zoo.fix_params(name, est.get_params(), X, y).items() if k_ in ('n_chunks', 'chunk_size')})
+                    T.call(est, 'set_params', (), kw, {'est': name, 'history': hist})
+                    hist.append(f'set_params(preprocessor=X{k})')
+                p_at_fit = copy.deepcopy(est.get_params())
+                T.call(est, 'fit', copy.deepcopy(ia), None, {'est': name, 'history': hist})
+                hist.append(f'fit(indices into X{k})')
+                case = {'est': name, 'history': list(hist), 'seed': sd}
+                R.case(('c17-pre', name, tuple(hist), X.tobytes().hex()[:24]), True, sample={'est': name, 'history': list(hist)}, branch='preprocessor-history')
+                with warnings.catch_warnings():
+                    warnings.simplefilter('ignore')
+                    fresh = zoo.CLASSES[name](**{k_: v_ for k_, v_ in p_at_fit.items() if not (isinstance(v_, str) and v_ == 'deprecated')})
+                    fresh.fit(*copy.deepcopy(ia))
+                probe_pts = rng.randn(4, X.shape[1]); probe_pairs = rng.randn(4, 2, X.shape[1])
+                try:
+                    bad = same_obs(observables(fresh, probe_pts, probe_pairs, name), observables(est, probe_pts, probe_pairs, name), exact=False)
+                except Exception as e:
+                    bad = f'observing raised {type(e).__name__}'
+                if bad is not None:
+                    R.violation(f'{name}/history-dependent/preprocessor/{bad}', f'{name}: after {hist}, {bad} differs from a fresh clone with the parameters in force fitted on the same indices', case)
+                    break
+        except Exception as e:
+            if name.startswith('SDML') and isinstance(e, RuntimeError):
+                continue
+            R.violation(f'{name}/preprocessor-history-raises-{type(e).__name__}', f'{name}: {type(e).__name__}: {str(e)[:160]} after {hist}', {'est': name, 'history': hist})
     R.extra['traces_validated_against_impl'] = R.evaluations
 
 
